@@ -5,7 +5,8 @@
 (* feed = the relay's Read returned the chunk; hook = vhook point inside relay.go (emitted at   *)
 (* the linearisation point, under the lock where there is one); deliver = what a writer got.    *)
 (* The worker's sends have no hook: they are silent steps.  Tokens: bytes >= 128 are unique     *)
-(* payload bytes, -1 ACT line, -2 CFG line, -3 trigger line, -4 end marker line, -5 FAIL line.  *)
+(* payload bytes, -1 ACT line, -2 CFG line, -3 trigger line, -4 end marker line, -5 FAIL line,   *)
+(* -6 / -7 undecodable ACT / CFG line; items of a second transfer through the same relay: x - 10.*)
 EXTENDS Relay, Json, IOUtils, TLCExt
 
 TraceLog == ndJsonDeserialize(IOEnv.VERIF_TRACE)
@@ -29,6 +30,7 @@ TReset ==
     /\ status' = "S" /\ lock' = "free" /\ inQ' = <<>> /\ outQ' = <<>> /\ inRest' = <<>> /\ outRest' = <<>>
     /\ sin' = <<>> /\ cout' = <<>> /\ junk' = {} /\ fedC' = <<>> /\ fedS' = <<>> /\ nIn' = 0 /\ nOut' = 0
     /\ pcI' = "read" /\ bufI' = <<>> /\ stI' = "S" /\ pcO' = "read" /\ bufO' = <<>> /\ stO' = "S" /\ pcW' = "off"
+    /\ wtok' = 0 /\ werr' = FALSE
     /\ confirm' = Ev.confirm /\ dS' = 0 /\ dC' = 0 /\ ldI' = TRUE /\ ldO' = TRUE
 
 TFeed == /\ IsEvent("feed") /\ UNCHANGED <<dS, dC>>
@@ -60,13 +62,15 @@ TStoreSilent == /\ More /\ UNCHANGED l /\ KeepT
                 /\ \/ OutStoreH \/ InMark \/ OutMark \/ WkStore \/ InLoad \/ OutLoad
 TReset2 == IsHook("relay.reset") /\ KeepT /\ UNCHANGED vars
 
-THsAct == IsHook("relay.hs.act") /\ KeepT /\ pcW = "sendAct" /\ UNCHANGED vars
-THsCfg == IsHook("relay.hs.cfg") /\ KeepT /\ pcW = "sendCfg" /\ UNCHANGED vars
+(* recvAction / recvConfig returned (with a line, or with an error for an undecodable one) *)
+THsAct == IsHook("relay.hs.act") /\ KeepT /\ pcW \in {"sendAct", "errC"} /\ K(wtok) \in {ACT, BADACT} /\ UNCHANGED vars
+THsCfg == IsHook("relay.hs.cfg") /\ KeepT /\ pcW \in {"sendCfg", "errC"} /\ K(wtok) \in {CFG, BADCFG} /\ UNCHANGED vars
 (* the worker's line reads and sends are not hooked one by one: silent steps *)
 TWkSilent == /\ More /\ UNCHANGED l /\ KeepT
              /\ \/ WkRecvAct \/ WkRecvCfg
                 \/ (WkSendAct /\ ~(Ev.e = "hook" /\ Ev.p = "relay.hs.act"))
                 \/ (WkSendCfg /\ ~(Ev.e = "hook" /\ Ev.p = "relay.hs.cfg"))
+                \/ ((WkErrC \/ WkErrS) /\ ~(Ev.e = "hook" /\ Ev.p \in {"relay.hs.act", "relay.hs.cfg"}))
 
 TFlushLock == IsHook("relay.flush.lock") /\ KeepT /\ WkFlushLock
 TFlushStore == IsHook("relay.flush.store") /\ KeepT /\ pcW = "store" /\ UNCHANGED vars
